@@ -4,7 +4,11 @@ import json, os
 V = os.path.dirname(os.path.dirname(os.path.abspath(__file__)))
 
 # id -> (technique, level text, level note, design ref)
+PROOF_NOTE = "Lean 4.33 kernel; axioms propext/Quot.sound/Classical.choice only (audited per run); translator go/extract and the layout interpreter Model/Layout.lean validated against the real IEncode/IDecode by the correspondence run; Go runtime/stdlib modelled (DESIGN.md 2.6)."
 CLAIMED = {
+ "C01": ("proof by reflection in Lean 4: layouts regenerated from the Go source (go/extract), decidable checker evaluated by `decide`, soundness theorem roundtrip_sound proved once; differential correspondence of the layout interpreter with the real encoders/decoders",
+         "For every PDU type found in /repo the kernel re-checks, on every run, that the regenerated IEncode/IDecode statement lists align into inverse wire items; the generic theorem then gives decode(encode r) = r for all field values that fit, unboundedly. Two SMGP types and one authenticator slot are recorded known findings with refutation theorems.",
+         PROOF_NOTE, "DESIGN.md 4/C01"),
  "C20": ("Lean 4 theorems by induction over arbitrary operation sequences on a hand model of packet.Writer/Reader; model tied to the Go code by differential correspondence runs",
          "Unbounded proof (any sequence of writes/reads, failures at any position) of inverse, count=bytes, sticky errors and in-bounds reads for the model; the model is validated against the real packet package on seeded op sequences every run.",
          "Lean kernel + propext/Quot.sound/Classical.choice; hand model Model/Packet.lean tied by correspondence only; bytes.Buffer/bytebufferpool/encoding/binary modelled not verified.",
